@@ -12,7 +12,7 @@
     fuel), run on the encoded table over the default scopes, returns success, and the sorted namespace view of the
     resulting tree (Aml/View.v) IS the namespace [ns] the specification assigns to the program (Aml/Grammar.v). *)
 From Coq Require Import NArith List.
-From FF Require Import Aml.Grammar Aml.WfProgram Aml.ParserFragF0Final Aml.ParserFragF1Final Aml.ParserFragF3Final.
+From FF Require Import Aml.Grammar Aml.WfProgram Aml.ParserFragF0Final Aml.ParserFragF1Final Aml.ParserFragF3Final Aml.ParserFragF4Final.
 Import ListNotations.
 Local Open Scope N_scope.
 
@@ -63,3 +63,18 @@ Theorem C11_parse_encode_partial_F3 : forall tables,
   wf_program tables = true -> in_fragment_F3 tables = true -> parse_encode_statement tables.
 Proof. exact parse_encode_F3. Qed.
 Print Assumptions C11_parse_encode_partial_F3.
+
+(** Fragment F4 ([in_fragment_F4], a boolean) = F3 + the other block-like named objects: ONE table; the items are
+    [Name(SEG, c)], [Device(SEG){..}], [ThermalZone(SEG){..}], [Processor(SEG, id, pblk address, pblk length){..}],
+    [PowerResource(SEG, system level, resource order){..}] and [Method(SEG, flags){ declarations }], with single-NameSeg
+    names and bodies made of items of the fragment again, nested to any depth; at the top level also
+    [Scope(\SEG){ items }] / [Scope(SEG){ items }] over the predefined scopes as in F3; any admissible PkgLength width;
+    the encoded table is shorter than 2^28 bytes.  Productions added to F3: DefThermalZone, DefProcessor (ProcID
+    ByteData, PblkAddr DWordData, PblkLen ByteData), DefPowerRes (SystemLevel ByteData, ResourceOrder WordData).
+    The proofs treat all block-like objects uniformly: a list of fixed-width data arguments between the name and the
+    TermList (first pass: one loop lemma over the argument list; connectNamedObjArgs / the view: a row of childless
+    objects of any length). *)
+Theorem C11_parse_encode_partial_F4 : forall tables,
+  wf_program tables = true -> in_fragment_F4 tables = true -> parse_encode_statement tables.
+Proof. exact parse_encode_F4. Qed.
+Print Assumptions C11_parse_encode_partial_F4.
